@@ -1714,6 +1714,169 @@ def r144(ctx, repo):
                label="features of available basins")
 
 
+#: what makes a helper of is_available a *probe* of the remote object (as
+#: opposed to a pure predicate on the location string, which may be cached;
+#: `is_s3_url` also asks whether the string names a local file – that is
+#: classification of the string, not availability of the object)
+IMPURE_PREFIX = ("socket.", "requests.", "boto3.", "botocore.",
+                 "urllib.request.")
+IMPURE_METHODS = {"connect", "get_session", "head_object", "urlopen", "load",
+                  "head", "request"}
+MEMO_DECORATORS = ("lru_cache", "cache", "cached_property", "memoize",
+                   "memoized")
+MUTATORS = {"add", "append", "extend", "update", "insert", "setdefault",
+            "pop", "remove", "discard", "clear", "__setitem__"}
+
+
+def _resolve_function(repo, rel, name):
+    """(rel, FunctionDef) of a module-level function `name` visible in file
+    `rel`: defined there or imported from a module of the package"""
+    f = repo.lookup(rel, name, missing_ok=True)
+    if isinstance(f, ast.FunctionDef) and isinstance(f.parent, ast.Module):
+        return rel, f
+    for st in repo.tree(rel).body:
+        if isinstance(st, ast.ImportFrom) and any(
+                (a.asname or a.name) == name for a in st.names):
+            orig = [a.name for a in st.names
+                    if (a.asname or a.name) == name][0]
+            parts = rel.split("/")[:-1]
+            if st.level:
+                parts = parts[:len(parts) - (st.level - 1)]
+            else:
+                parts = []
+            mod = parts + (st.module.split(".") if st.module else [])
+            for cand in ("/".join(mod) + ".py",
+                         "/".join(mod) + "/__init__.py"):
+                if repo.exists(cand):
+                    f2 = repo.lookup(cand, orig, missing_ok=True)
+                    if isinstance(f2, ast.FunctionDef):
+                        return cand, f2
+    return None
+
+
+def r144_probes(ctx, repo):
+    """availability is probed on every call: the functions that touch the
+    network / file system on behalf of is_available keep no shared memo of
+    their results"""
+    graph = {}       # (rel, name) -> (FunctionDef, callees)
+
+    def visit(rel, fn):
+        key = (rel, fn.name)
+        if key in graph:
+            return
+        graph[key] = (fn, [])
+        for c in [n for n in walk(fn) if isinstance(n, ast.Call)]:
+            if isinstance(c.func, ast.Name):
+                r = _resolve_function(repo, rel, c.func.id)
+                if r is not None:
+                    graph[key][1].append((r[0], r[1].name))
+                    visit(*r)
+
+    def directly_impure(fn):
+        for c in [n for n in walk(fn) if isinstance(n, ast.Call)]:
+            d = dotted(c.func) or ""
+            if d.startswith(IMPURE_PREFIX) or d in ("open",):
+                return True
+            if isinstance(c.func, ast.Attribute) and c.func.attr in \
+                    IMPURE_METHODS:
+                return True
+        return False
+    methods = []
+    for rel, cls, fmt, typ in fold_basin_classes(repo):
+        m = method(cls, "is_available")
+        if m is None:
+            continue        # abstract: the class cannot be instantiated
+        methods.append((rel, cls, m))
+        visit(rel, m)
+    impure = {k for k, (fn, _) in graph.items() if directly_impure(fn)}
+    changed = True
+    while changed:
+        changed = False
+        for k, (fn, callees) in graph.items():
+            if k not in impure and any(c in impure for c in callees):
+                impure.add(k)
+                changed = True
+    meth_keys = {(rel, m.name) for rel, cls, m in methods}
+
+    def shared_writes(rel, fn, cls=None):
+        """writes to module-level names (or class-level state) inside fn"""
+        modnames = {t.id for st in repo.tree(rel).body
+                    if isinstance(st, (ast.Assign, ast.AnnAssign))
+                    for t in (st.targets if isinstance(st, ast.Assign)
+                              else [st.target]) if isinstance(t, ast.Name)}
+        clsnames = set()
+        if cls is not None:
+            for c in (cls, repo.cls(FB, "Basin")):
+                clsnames |= {t.id for st in c.body
+                             if isinstance(st, ast.Assign)
+                             for t in st.targets if isinstance(t, ast.Name)}
+        localn = {n.id for n in walk(fn) if isinstance(n, ast.Name)
+                  and isinstance(n.ctx, ast.Store)}
+        glob = {x for n in walk(fn) if isinstance(n, ast.Global)
+                for x in n.names}
+        out = []
+
+        def shared(e):
+            if isinstance(e, ast.Name):
+                return (e.id in modnames and e.id not in localn) \
+                    or e.id in glob
+            if isinstance(e, ast.Attribute) and isinstance(
+                    e.value, ast.Name):
+                if e.value.id in ("cls",) or (
+                        cls is not None and e.value.id == cls.name):
+                    return True
+                if e.value.id == "self" and e.attr in clsnames:
+                    return True
+            if isinstance(e, ast.Attribute) and txt(e.value) in (
+                    "type(self)", "self.__class__"):
+                return True
+            return False
+        for n in walk(fn):
+            if isinstance(n, ast.Call) and isinstance(
+                    n.func, ast.Attribute) and n.func.attr in MUTATORS \
+                    and shared(n.func.value):
+                out.append(n)
+            elif isinstance(n, (ast.Assign, ast.AugAssign)):
+                for t in (n.targets if isinstance(n, ast.Assign)
+                          else [n.target]):
+                    base = t.value if isinstance(t, ast.Subscript) else t
+                    if isinstance(t, ast.Subscript) and shared(base):
+                        out.append(n)
+                    elif isinstance(t, ast.Name) and t.id in glob:
+                        out.append(n)
+                    elif isinstance(t, ast.Attribute) and shared(t) \
+                            and not is_self_attr(t):
+                        out.append(n)
+        return out
+    n_ob = 0
+    for (rel, name), (fn, _) in sorted(graph.items(),
+                                       key=lambda kv: kv[0]):
+        is_meth = (rel, name) in meth_keys and isinstance(
+            fn.parent, ast.ClassDef)
+        if not is_meth and (rel, name) not in impure:
+            continue        # pure helper (string predicates may be cached)
+        cls = fn.parent if is_meth else None
+        memo = [d for d in fn.decorator_list if any(
+            m in txt(d) for m in MEMO_DECORATORS)]
+        writes = shared_writes(rel, fn, cls)
+        n_ob += 1
+        q = f"{cls.name}.{name}" if cls is not None else name
+        ok = not memo and not writes
+        ctx.ob("R14.4", ok,
+               f"{q} probes the basin on every call (no shared memo of "
+               f"results)" if ok else
+               (f"{q} is memoised by `@{txt(memo[0])}`" if memo else
+                f"{q} records results in shared state "
+                f"(`{short(writes[0], 50)}`)")
+               + ": a basin that has become unreachable is still reported "
+               "as available to datasets opened later, and its features are "
+               "offered although they cannot be read",
+               node=(memo or writes or [fn])[0],
+               key=f"{rel}::{q}::availability probed on every call")
+    if n_ob < len(methods):
+        raise AnalysisError("availability probes not found")
+
+
 def single_assign_any(func, name):
     """value of the first plain assignment to `name` (or None)"""
     for n in walk(func):
@@ -1759,7 +1922,7 @@ def run(ctx):
              "overridden, writer agrees", minimum=18)
     ctx.rule("R14.4", "degradation: basin access inside try, catch-all, no "
              "re-raise, None unless delivered, copy iteration, available "
-             "basins only", minimum=7)
+             "basins only, availability probed on every call", minimum=14)
     sites = Sites(expand_partials(inline_module_helpers(
         repo, CORE, repo.func(CORE, "RTDCBase.basins_retrieve"),
         methods=True, keep=KEEP_CALLS)))
@@ -1769,6 +1932,7 @@ def run(ctx):
     r142_locks(ctx, repo)
     r143(ctx, repo, sites)
     r144(ctx, repo)
+    r144_probes(ctx, repo)
 
 
 def crossval(ctx):
@@ -2022,6 +2186,31 @@ MUTANTS = [
      ('"measurement_identifier": self.get_measurement_identifier(),',
       '"measurement_identifier": None,'), "R14.3"),
     # ---- R14.4
+    ("available URLs remembered in a module-level set (seeded C14_11)",
+     "dclab/http_utils.py",
+     [("    avail = False\n    reason = \"none\"\n    if is_http_url(url):\n",
+       "    avail = False\n    reason = \"none\"\n"
+       "    if url in _available_urls:\n        avail = True\n"
+       "    elif is_http_url(url):\n"),
+      ("    if ret_reason:\n        return avail, reason\n",
+       "    if avail:\n        _available_urls.add(url)\n"
+       "    if ret_reason:\n        return avail, reason\n"),
+      ("session_cache = ResoluteRequestsSessionCache()\n",
+       "session_cache = ResoluteRequestsSessionCache()\n\n"
+       "_available_urls = set()\n")], "R14.4"),
+    ("S3 availability probe memoised with lru_cache", S3F,
+     ("def is_s3_object_available(url: str,",
+      "@functools.lru_cache(maxsize=1000)\n"
+      "def is_s3_object_available(url: str,"), "R14.4"),
+    ("file basin availability remembered per class", H5BASIN,
+     [("    basin_type = \"file\"\n",
+       "    basin_type = \"file\"\n    _known_paths = {}\n"),
+      ("                    self._available_verified = \\\n"
+       "                        pathlib.Path(self.location).exists()\n",
+       "                    self._available_verified = \\\n"
+       "                        pathlib.Path(self.location).exists()\n"
+       "                    self._known_paths[str(self.location)] = \\\n"
+       "                        self._available_verified\n")], "R14.4"),
     ("catch-all handler removed", CORE,
      ("                except BaseException:\n"
       "                    warnings.warn(f\"Could not access {feat} in {self}:\\n\"\n"
@@ -2263,6 +2452,10 @@ TWINS = [
       "        self._ds.ignore_basins(seen_basin_keys)\n"
       "        return self._ds\n")),
     ("ignore keys collected by a loop and extend()", CORE, _twin_key_loop),
+    ("URL probe counts its calls in a local", "dclab/http_utils.py",
+     ("    avail = False\n    reason = \"none\"\n    if is_http_url(url):\n",
+      "    avail = False\n    reason = \"none\"\n    attempts = []\n"
+      "    attempts.append(url)\n    if is_http_url(url):\n")),
     ("basins instantiated through functools.partial", CORE, _twin_partial),
     ("format table built by a dict comprehension", FB,
      ("    bc = {}\n"
